@@ -209,6 +209,17 @@ func buildCorpus() {
 			corpus = append(corpus, corpusEntry{name: fmt.Sprintf("respelled/%d/%s", k, b.name), value: b.value, target: b.target, mangle: respell(f)})
 		}
 	}
+	// one instant written in several time zones (and its neighbours a second away): equal as times and, in the binary
+	// form, as bytes; different as XML / JSON / text. What one of them looks like must not depend on the others
+	for i, loc := range []*time.Location{time.UTC, time.FixedZone("", 2*3600), time.FixedZone("", -(7*3600 + 1800)), time.FixedZone("", 14*3600)} {
+		at := fixedTime().In(loc)
+		v := ttlv.Value{Tag: 0x420078, Value: ttlv.Struct{{Tag: 0x420092, Value: at}, {Tag: 0x420069, Value: int32(i)}, {Tag: 0x420001, Value: at.Add(time.Second)}, {Tag: 0x420092, Value: at.Add(-time.Second)}}}
+		corpus = append(corpus, corpusEntry{name: fmt.Sprintf("zoned-datetime/%d", i), value: v, target: func() any { return &ttlv.Value{} }})
+		msg := &kmip.ResponseMessage{Header: kmip.ResponseHeader{ProtocolVersion: kmip.V1_4, TimeStamp: at, BatchCount: 1},
+			BatchItem: []kmip.ResponseBatchItem{{Operation: kmip.OperationGetAttributes, ResultStatus: kmip.ResultStatusSuccess,
+				ResponsePayload: &payloads.GetAttributesResponsePayload{UniqueIdentifier: "zoned", Attribute: []kmip.Attribute{{AttributeName: kmip.AttributeNameActivationDate, AttributeValue: at}}}}}}
+		corpus = append(corpus, corpusEntry{name: fmt.Sprintf("zoned-message/%d", i), value: msg, target: func() any { return &kmip.ResponseMessage{} }})
+	}
 	// values whose encoding panics half-way (negative interval after some content; a Go type the encoder does not
 	// support): the panic is the deterministic result of that call, and whatever the aborted call leaves behind
 	// (a half-written pooled buffer, a version) must not show in any later result
@@ -524,9 +535,9 @@ func c20SweepFloor(tier string) []*C20Sc {
 		}
 		return -1
 	}
-	pairs := [][2]string{{"escaped-text/0", "escaped-text/1"}, {"escaped-text/2", "escaped-text/0"}, {"get-response/1", "get-response/2"}}
+	pairs := [][2]string{{"escaped-text/0", "escaped-text/1"}, {"escaped-text/2", "escaped-text/0"}, {"get-response/1", "get-response/2"}, {"zoned-datetime/0", "zoned-datetime/1"}}
 	if tier == "thorough" {
-		pairs = append(pairs, [2]string{"escaped-text/1", "escaped-text/2"}, [2]string{"bare-cryptoparams/0", "bare-cryptoparams/1"}, [2]string{"value/0", "value/1"}, [2]string{"get-response/0", "get-response/3"}, [2]string{"get-response/2", "get-response/0"})
+		pairs = append(pairs, [2]string{"zoned-message/2", "zoned-message/0"}, [2]string{"zoned-datetime/3", "zoned-datetime/2"}, [2]string{"escaped-text/1", "escaped-text/2"}, [2]string{"bare-cryptoparams/0", "bare-cryptoparams/1"}, [2]string{"value/0", "value/1"}, [2]string{"get-response/0", "get-response/3"}, [2]string{"get-response/2", "get-response/0"})
 	}
 	var out []*C20Sc
 	for _, pr := range pairs {
